@@ -189,7 +189,7 @@ fn run_vectors(tier: &str, vectors: &[u32]) -> Report {
     let mut f_entry = vec![];
     let mut f_unsigned = vec![];
     let mut f_total = vec![];
-    let top_shapes: u32 = if tier == "thorough" { 5 } else { 3 };
+    let top_shapes: u32 = if tier == "thorough" { 5 } else { 4 };
     for &bits in vectors {
         let rules = rules_from_bits(bits);
         for ty in TYPES {
